@@ -46,6 +46,7 @@ func runC12Mesh(rc *sk.RunCtx) {
 		mw.faults.dup = 100 + tp.Choose(200)
 	}
 	att := newAttacker(mw.simWorld)
+	mw.batchRx = tp.Chance(1, 2)
 	effects := map[effectKey]int{}
 	replaysAccepted, replays, relayedReplays := 0, 0, 0
 	mw.observe = func(ob *observed, d *simDatagram) {
@@ -80,7 +81,7 @@ func runC12Mesh(rc *sk.RunCtx) {
 		nw, nops, nrep = nw*3, nops*3, nrep*3
 	}
 	mw.scheduleWorkload(nw, 0, horizon)
-	mw.scheduleOperator(nops, time.Second, horizon, []string{"rehandshake", "rehandshake", "burst", "burst", "stall", "close"})
+	mw.scheduleOperator(nops, time.Second, horizon, []string{"rehandshake", "rehandshake", "burst", "burst", "stall", "close", "tunerr"})
 	for k := 0; k < nrep; k++ {
 		at := 500*time.Millisecond + time.Duration(tp.Choose(int(horizon/time.Millisecond)))*time.Millisecond
 		mw.at(at, "attacker-replay", func() {
